@@ -21,7 +21,7 @@ class World:
     def __init__(self):
         import pytoniq_core.tl.generator as g
         self.g = g
-        self.ctors, self.I, self.meta = TT.build()
+        self.ctors, self.I, self.meta = TT.build(lenient=True)      # disagreements with the grammar: see meta['disagreements']
         self.lib = g.TlGenerator.with_default_schemas().generate()
         assert len(self.lib.list) == len(self.ctors)
         for i, c in enumerate(self.ctors):
